@@ -135,6 +135,13 @@ def handle : List String → String
         match data c cl body with | some b => hexEncode b | none => "-"
       else "bad-op"
     | _, _, _, _, _, _ => "bad-op"
+  | ["reads", cl, src, ops] =>
+    -- `reads <content-length> <stream hex> <k,k,..>` (`-` = read without size)
+    match cl.toNat?, hexDecode src, (if ops = "none" then some [] else (ops.splitOn ",").mapM natOpt) with
+    | some cl, some src, some ks =>
+      let r := reqReads ⟨cl, src⟩ ks
+      String.intercalate "," (r.1.map hexEncode) ++ " left " ++ toString r.2.src.length
+    | _, _, _ => "bad-op"
   | ["hdr", env, name] =>
     match parsePairs env, strDecode name with
     | some env, some n => showOptStr (Headers.getItem (reqHeaders env) n)
